@@ -19,7 +19,7 @@ RULE = ("case = one generated project (1-4 source files in four size classes, 1-
         "sites biased to scratch writes/renames/post-rename operations, thorough sweeps every k x action. "
         "An evaluation is one faulted run; it is non-trivial when the planned fault actually fired; distinct = distinct "
         "(world, k, action, errno).")
-PROBES = ["multi_drain", "kill_with_scratch_open", "fault_after_first_rename", "exdev_rename", "kill_mid_write"]
+PROBES = ["two_fault_plan", "multi_drain", "kill_with_scratch_open", "fault_after_first_rename", "exdev_rename", "kill_mid_write"]
 ASSUMPTIONS = ["process death = SIGKILL at an operation boundary or inside a write; only what the kernel has survives "
                "(no power-loss model)",
                "the fault-free twin defines the complete updated content (insertion offsets; ID values free)"]
@@ -55,6 +55,8 @@ def evaluate(wm, knobs, plan, ctx, twin=None):
     f0 = plan["faults"][0] if plan["faults"] else None
     phase = scen.phase_of(phm, f0.get("k", 0), K) if f0 else "none"
     fcls = scen.fault_class(f0) if f0 else "none"
+    if len(plan["faults"]) > 1:
+        fcls = "+".join(scen.fault_class(f) for f in plan["faults"])
     states = scen.classify_files(wm, run["before"], run["after"], twin["after"])
     for p, s in states.items():
         ctx.states[s] += 1
@@ -106,6 +108,20 @@ def run_case(rng, idx, tier, ctx):
                             "plans_tried": len(plans), "first_plans": [p["faults"] for p in plans[:3]]})
     viols = []
     first_rename = min([o.k for o in ops if o.kind == "RENAME"], default=None)
+    # two-fault plans: an I/O error, then a kill at a later operation of the (now different) continuation
+    for _ in range(3 if tier == "quick" else 24):
+        o1 = rng.choice(ops)
+        acts = scen.applicable_actions(o1, ["fail", "torn"])
+        if not acts:
+            continue
+        f1 = {"k": o1.k, "act": acts[0], "errno": rng.choice(scen.errnos_for(o1))}
+        if f1["act"] == "torn":
+            f1["frac"] = 0.5
+        f2 = {"k": rng.randrange(o1.k + 1, K + 8), "act": rng.choice(["kill_before", "kill_after"])}
+        plan2 = {"seed": base["seed"], "perm": base["perm"], "faults": [f1, f2]}
+        viols += evaluate(wm, knobs, plan2, ctx, twin)
+        ctx.probes["two_fault_plan"] += 1
+        ctx.nontrivial.add("%d.2f.%d.%d" % (idx, f1["k"], f2["k"]))
     for plan in plans:
         f0 = plan["faults"][0]
         vs = evaluate(wm, knobs, plan, ctx, twin)
